@@ -42,7 +42,18 @@ def cases(draw, tier):
     spec = draw(tg.type_specs(cfg))
     while spec["k"] == "string":
         spec = draw(tg.type_specs(cfg))
-    value = c01.special_values(draw, spec, cfg)
+    if draw(st.integers(0, 7)) == 0:
+        # by construction: a root array of dynamically sized items, 3 axes of extent >= 2, cyclic axis order - the one
+        # class in which the constructor handle (index-space offsets) and the bytes (memory-order table) can disagree
+        item = draw(st.sampled_from([{"k": "string"}, {"k": "struct", "name": "SC", "fields": [["a", {"k": "scalar", "t": "Int16"}], ["s", {"k": "string"}]]},
+                                     {"k": "array", "name": None, "item": {"k": "scalar", "t": "Int32"}, "shape": [None], "order": [0]}]))
+        shape = [draw(st.sampled_from([2, 3, None])) for _ in range(3)]
+        spec = {"k": "array", "name": "AC", "item": item, "shape": shape, "order": list(draw(st.sampled_from([(1, 2, 0), (2, 0, 1)])))}
+        value = {"shape": [d if d is not None else draw(st.integers(2, 3)) for d in shape], "flat": []}
+        n = value["shape"][0] * value["shape"][1] * value["shape"][2]
+        value["flat"] = [tg._draw_value(draw, item, cfg) for _ in range(n)]
+    else:
+        value = c01.special_values(draw, spec, cfg)
     p = draw(pl.placements())
     if p["ctx"] == "default":
         p["ctx"] = "fresh"
